@@ -35,7 +35,9 @@
 //     dials of the kind fail.
 //   - read-only: a public address of a kind is dialled iff every configured detector that applies to it is
 //     Allowed; State() only changes through the harness's own direct RecordResult calls (the shared-counter
-//     arrangement autonat uses), also when the counters are driven on after the read-only swarm is closed.
+//     arrangement autonat uses). "Never changes state" includes state that State() does not show: after the
+//     read-only swarm is closed the shared counters are driven on with a drawn request/record tail and must
+//     answer exactly like twin counters that received the same direct records but never met the swarm.
 //
 // Determinism of stratum B: requests are issued at whole virtual milliseconds, every stub dial completes at
 // (whole ms + a microsecond offset unique to its address), network switches happen at offset 950us, so no two
@@ -43,11 +45,37 @@
 // which are causally ordered after it. The history is assembled after the run, ordered by virtual instant;
 // a shared instant is reported as harness trouble.
 //
-// Sensitivity (overlay mutations of /repo/p2p/net/swarm/black_hole_detector.go, one at a time, 4 workers):
+// Sensitivity. Each mutation below was applied alone to a copy of /repo/p2p/net/swarm/black_hole_detector.go (BH)
+// or swarm_dial.go (SD) through `go test -c -overlay`, run on 4 workers; every one was reported within 1-9 s
+// (5-110 runs), none on the unchanged tree (43 000 runs, 3 of 6 workers with VERIF_SELFTEST=1; ./check selftest
+// identical over GOMAXPROCS 1/4/16/2). Classes listed are the ones that fired first.
 //
-//	see the table at the end of this comment block (filled in from actual runs).
+//	M1  BH HandleRequest never probes (`|| b.requests%b.N == 0` dropped)   counter/no-probe-within-window, no-probe-within-window/{udp,ipv6},
+//	                                                                        liveness/no-success-within-window/{udp,ipv6}
+//	M2  BH probe modulo wrong (`requests%(N+1)`)                            counter/no-probe-within-window, no-probe-within-window/{udp,ipv6}
+//	M3  BH window not slid (whole `len > N` block removed)                  counter/state-mismatch/got-Allowed-want-Blocked, swarm/state-mismatch/udp/got-Allowed-want-Blocked
+//	M3b BH slice not advanced (successes still decremented)                 counter/state-mismatch/got-Blocked-want-Allowed, read-only/refused-although-known-good/udp
+//	M4  BH reset on success removed                                         counter/state-mismatch/got-{Allowed,Blocked}-want-Probing, swarm/state-mismatch/...
+//	M5  BH private addresses filtered (IsPublicAddr guard dropped)          unaffected-address-removed/private
+//	M6  BH read-only RecordResult updates state                             read-only/state-changed/{udp,ipv6}, read-only/refused-although-known-good/...
+//	M7  BH MinSuccesses comparison off by one (`>`)                         counter/state-mismatch/got-Blocked-want-Allowed, swarm/state-mismatch/udp/got-Blocked-want-Allowed
+//	M8  BH read-only lets unknown (Probing) state through                   read-only/passed-without-known-good/{udp,ipv6}
+//	M9  BH IPv6 detector also removes IPv4 addresses                        unaffected-address-removed/other-kind, refused-without-full-bad-window/udp
+//	M10 SD swarm never records dial results                                 swarm/state-mismatch/{udp,ipv6}/got-Probing-want-{Blocked,Allowed}
+//	M11 BH window evaluated after N-1 outcomes                              counter/state-mismatch/got-Blocked-want-Probing, refused-without-full-bad-window/udp
+//	M12 BH successes not decremented when sliding                           counter/state-mismatch/got-Allowed-want-Blocked, swarm/state-mismatch/udp/got-Allowed-want-Blocked
+//	M13 BH UDP detector also removes TCP addresses                          unaffected-address-removed/{other-kind,detector-not-configured}, refused-without-full-bad-window/ipv6
+//	M14 BH read-only uses HandleRequest (hidden request counter moves)      MISSED by the first version (State() only); caught after the twin-counter
+//	                                                                        tail was added: read-only/state-changed/{udp,ipv6}
+//	M15 BH reset keeps the old results                                      counter/state-mismatch/got-Blocked-want-Probing, refused-without-full-bad-window/udp
+//	M16 SD cancelled dials not recorded (contradicts the type doc only)     swarm/state-mismatch/..., refused-without-full-bad-window/udp
+//	M17 BH private addresses count as requests (use up probe slots)         no-probe-within-window/{udp,ipv6}
+//	M18 SD RecordResult inverted (`err != nil`)                             refused-without-full-bad-window/udp, swarm/state-mismatch/...
+//	M19 BH dials of private addresses recorded                              refused-without-full-bad-window/{udp,ipv6}, swarm/state-mismatch/...
 //
-// MUTATION-TABLE-PLACEHOLDER
+// Not detectable by construction (not statement violations): detectors that block less than documented only in the
+// request path (a request let through is never a violation in read/write mode), a different position of the probe
+// inside the window, a probe rate higher than one in N.
 package c20
 
 import (
@@ -656,7 +684,9 @@ func runSwarm(t *testing.T, tape *simrt.Tape, g simrt.Gen, o *common.Outcome) {
 	w.up[0] = !g.Chance(1, 3)
 	w.up[1] = !g.Chance(1, 3)
 	initUp := w.up
-	nOps := g.Range(1, 40)
+	// at most 30 operations x 5 addresses: fewer TCP dials than the swarm's file-descriptor dial limit (160), so
+	// that with the no-delay ranker "admitted" really implies "handed to the transport at once"
+	nOps := g.Range(1, 30)
 
 	drawAddr := func() *addrT {
 		typ := g.Weighted(2, 5, 3, 3, 1, 1, 1, 1) // bit0 quic, bit1 ip6, bit2 private
